@@ -43,6 +43,7 @@ structure Snap where
   implViews : List (Option (List IRow))  -- implementation views before each applied block (when observed), top first
 
 structure DState where
+  focus : String := ""        -- only flags with this prefix are reported and end a history (one driver serves three properties)
   rb : Nat := 0
   buf : Nat := 0
   m : State := {}
@@ -202,8 +203,22 @@ def firstDiff (names : List String) (a b : List Nat) : Option (String × Nat × 
 
 def headD {α} (l : List α) (d : α) : α := match l with | x :: _ => x | [] => d
 
+def verdictName : Verdict → String
+  | .mismatch f _ _ => f
+  | .monitor n _ => n
+  | _ => ""
+
 def flag (d : DState) (vs : List Verdict) : DState × List Verdict :=
-  ({ d with dead := d.dead || !vs.isEmpty }, vs)
+  let keep (v : Verdict) : Bool :=
+    match v with
+    | .badline _ => true
+    | v => d.focus.isEmpty || (verdictName v).startsWith d.focus
+  let kept := vs.filter keep
+  -- a dropped disagreement about whether an operation took effect makes the rest of the history
+  -- meaningless (model and implementation are in different states): stop silently
+  let hard := vs.any fun v => !keep v && ((verdictName v).endsWith ".res" || (verdictName v).endsWith "model_projection"
+                                         || (verdictName v).endsWith "wf_update_never_fails")
+  ({ d with dead := d.dead || !kept.isEmpty || hard }, kept)
 
 /-- the seven lifecycle selections as the property states them, evaluated on implementation rows.
 `some true` = must be selected, `some false` = must not, `none` = the property does not decide. -/
@@ -214,7 +229,10 @@ def specRevision (h buf wStart : Nat) (r : IRow) : Option Bool :=
   | .v1 => if r.st == .active then some base else if base then none else some false
   | .v2 => some (base && r.st == .active)
 def specProof (h wStart wEnd : Nat) (r : IRow) : Option Bool :=
-  some (r.conf && r.st == .active && wStart ≤ h && h < wEnd)
+  -- a v1 missed resolution sits in block `window_end`; a failed v1 row below that height cannot
+  -- occur on a chain (hypothesis `hfail` of `proof1_exact`), the property does not decide it
+  if r.ver == .v1 && r.st == .failed && h < wEnd then none
+  else some (r.conf && r.st == .active && wStart ≤ h && h < wEnd)
 def specExpire (h wEnd : Nat) (r : IRow) : Option Bool :=
   some (r.conf && r.st == .active && wEnd ≤ h)
 
@@ -233,7 +251,7 @@ def step (d : DState) (l : Line) : DState × List Verdict :=
   if l.op == "reset" then
     match getNat l.args "rb", getNat l.args "buf" with
     | some rb, some buf =>
-      ({ rb, buf, hists := d.hists + 1, applies := d.applies, reverts := d.reverts, wfOps := d.wfOps, illOps := d.illOps,
+      ({ focus := d.focus, rb, buf, hists := d.hists + 1, applies := d.applies, reverts := d.reverts, wfOps := d.wfOps, illOps := d.illOps,
          taintedHists := d.taintedHists + (if d.tainted then 1 else 0), batches := d.batches, usages := d.usages,
          actions := d.actions, twins := d.twins, rescans := d.rescans, faultsAgreed := d.faultsAgreed, cells := d.cells,
          acctOps := d.acctOps, renewals := d.renewals }, [])
@@ -445,9 +463,13 @@ def step (d : DState) (l : Line) : DState × List Verdict :=
             getNatList l.obs "rv2", getNatList l.obs "pf2", getNatList l.obs "ex2" with
       | some rb1, some rv1, some pf1, some rb2, some rv2, some pf2, some ex2 =>
         let d := { d with actions := d.actions + 1 }
-        -- rows as last reported by the implementation carry status/flags; windows come from the model (static columns)
+        -- what the chain position requires: the rows of the best-chain spec (processing only the best
+        -- chain), with pending/rejected decided by the rejection rule of the model; the implementation's
+        -- own flags are NOT trusted here (a stale confirmed-revision flag must show up as a missed action)
+        let specCs := (headD d.spec {}).cs
         let rows : List IRow := d.m.cs.filterMap fun c =>
-          (d.lastImplViews.find? fun x => x.1 == c.id && x.2.1 == c.ver).map fun (_, _, v) =>
+          (specCs.find? fun x => x.id == c.id && x.ver == c.ver).map fun x =>
+            let v := viewOf x
             { id := c.id, ver := c.ver, st := (if v.cls == .pending && c.status == .rejected then .rejected else v.cls),
               conf := v.confirmed, confH := v.confH, revConf := v.revConfirmed, resH := v.resH, rev := c.rev,
               locked := c.locked, usage := c.usage }
